@@ -102,13 +102,22 @@ Section eval.
     Variable ev : vplan -> val -> N -> outcome (val * N).
     Variable ea : aplan -> val -> val -> N -> outcome (val * N).
 
+    (* storing element i into a nil slice: index out of range; a conversion that is built before it is stored
+       (lhs[i] = f(src[i])) runs first and may fail first (finding F-C02-1 with a fallible element conversion) *)
+    Definition store_into_nil (i : N) (a : aplan) (s : val) (st : N) : outcome (list val * N) :=
+      match a with
+      | ASet _ | APtr _ | ASrcPtr _ =>
+        match ea a s VNil st with Errored er => Errored (push_elem (DIndex i) er) | _ => Panicked end
+      | _ => Panicked
+      end.
+
     (* for i := range src { a(lhs[i]) } *)
     Fixpoint each_assign (i : N) (a : aplan) (srcs olds : list val) (st : N) : outcome (list val * N) :=
       match srcs, olds with
       | [], _ => Done (olds, st)
       | s :: sr, o :: orr => let* (v, st1) := tag (DIndex i) (ea a s o st) in
                              let* (vs, st2) := each_assign (i + 1) a sr orr st1 in Done (v :: vs, st2)
-      | s :: sr, [] => if touches a s then Panicked   (* index out of range *)
+      | s :: sr, [] => if touches a s then store_into_nil i a s st
                        else each_assign (i + 1) a sr [] st
       end.
 
